@@ -533,3 +533,33 @@ fn c03_batch_two_pixels() {
     kani::cover!(nw == 2 && d.di.nb == 2);
     kani::cover!(nw == 1);
 }
+
+/// BOUNDED stand-in (batch mode): two horizontally adjacent in-bounds pixels supplied left to right are sent as ONE
+/// window with a two-pixel burst, in order (C20 row merging; C03 order and colours)
+#[cfg(feature = "batch")]
+#[kani::proof]
+#[kani::unwind(4)]
+fn c20_batch_adjacent_pair_one_window() {
+    use embedded_graphics_core::draw_target::DrawTarget;
+    use embedded_graphics_core::geometry::Point;
+    use embedded_graphics_core::Pixel;
+    use embedded_graphics_core::pixelcolor::{raw::RawU16, Rgb565};
+    let clock = Clock::new();
+    let r = crate::Builder::new(FbModel::<240, 320>, Tiny2::new()).reset_pin(MockPin::new(&clock)).init(&mut MockDelay(&clock));
+    let mut d = match r { Ok(d) => d, Err(_) => { kani::assume(false); unreachable!() } };
+    d.di = Tiny2::new();
+    let (x, y): (u16, u16) = (kani::any(), kani::any());
+    kani::assume(x < 239 && y < 320);
+    let (c0, c1): (u16, u16) = (kani::any(), kani::any());
+    let mk = |px: u16, c: u16| Pixel(Point::new(px as i32, y as i32), Rgb565::from(RawU16::new(c)));
+    let r = d.draw_iter([mk(x, c0), mk(x + 1, c1)]);
+    kani::assert(r.is_ok(), "C02: draw_iter returned an error on a fault-free bus");
+    let b0 = d.di.b[0];
+    let which: u8 = kani::any();
+    if which == 0 { kani::assert(!d.di.bad && d.di.nb == 1, "C20: two adjacent pixels of a row must share one window"); }
+    if which == 1 && d.di.nb == 1 {
+        kani::assert(b0.sx == x && b0.ex == x + 1 && b0.sy == y && b0.ey == y && b0.n == 2
+                     && u16::from_be_bytes(b0.px[0]) == c0 && u16::from_be_bytes(b0.px[1]) == c1, "C03: C08: the burst is not the two pixels in order in a 2x1 window");
+    }
+    kani::cover!(d.di.nb == 1 && x == 238);
+}
